@@ -21,6 +21,9 @@ import (
 func runC01(s *simrt.Sim) {
 	tp := s.Tape
 	nofault := simrt.Mode() == "nofault"
+	if !nofault {
+		s.SetMapOrder(tp.Draw(4, "maporder"))
+	}
 	n := tp.Range(1, 6, "n_backends")
 	sub := &mSub{Name: "sub.a", Weight: 1}
 	for i := 0; i < n; i++ {
